@@ -78,6 +78,7 @@ Scenario(fam, proto, kind, probe, ph, host, custom, ua, probeText, method, path,
   [fam |-> fam, proto |-> proto, kind |-> kind, probe |-> probe, preserveHost |-> ph, host |-> host,
    custom |-> custom, ua |-> ua, probeText |-> probeText, method |-> method, path |-> path, lines |-> lines,
    pre |-> <<>>,            \* client lines that travel in front of the User-Agent line(s)
+   trailers |-> <<>>,       \* client lines of the trailer section (after a one-octet body; each name announced in Trailer)
    scheme |-> "https",      \* HTTP/2 only: the :scheme pseudo-header the client chose (the connection is TLS whatever it says)
    prefix |-> "",           \* path of the configured forward URL (a backend mounted under a prefix)
    wantTarget |-> path]     \* request-target the backend must see: forward prefix, then the client's target octet for octet
@@ -99,6 +100,13 @@ Scenarios ==
       ls \in { << L("Connection", "Upgrade, X-JA3-Fingerprint", "canon"), L("Upgrade", "websocket", "canon"), L(JA3K, "evil3", "canon") >>,
                << L(JA3K, "evil3", "lower"), L(H2K, "evilh2", "canon"), L(JA4K, "evil4", "canon"), L("Upgrade", "websocket", "canon"), L("Connection", "x-http2-fingerprint, upgrade, x-ja4-fingerprint", "lower") >>,
                << L("Connection", "Upgrade, X-JA3-Fingerprint", "canon"), L("Upgrade", "websocket", "canon") >> } }
+  \cup
+  \* C05: the trailer section is the other place where a client can put a field under a fingerprint name
+  { [Scenario("spoof", p, k, TRUE, FALSE, "vf.test", c, <<"curl/8">>, FALSE, "POST", "/a", ls) EXCEPT !.trailers = tr] :
+      p \in Protos, k \in {"normal", "tworec"}, c \in {"absent", "value", "error"},
+      ls \in { <<>>, << L(JA3K, "evil3", "lower") >> },
+      tr \in { << L(JA3K, "evilT3", "canon") >>, << L(JA4K, "evilT4", "lower"), L(H2K, "evilTh2", "canon") >>,
+               << L("X-Checksum", "abc", "canon"), L(CUSK, "evilTc", "canon"), L(JA3K, "evilT3b", "upper") >> } }
   \cup
   \* C09: forwarding headers
   { Scenario("fwd", p, "normal", TRUE, ph, h, "absent", <<"curl/8">>, FALSE, "GET", "/a", ls) :
@@ -147,12 +155,13 @@ Scenarios ==
 VARIABLES req,        \* the scenario (constant during a behaviour)
           pc,         \* pipeline position
           outH,       \* outbound header list
+          outT,       \* outbound trailer section
           outHost,    \* "BACKEND" | client host
           local,      \* answered by the proxy itself (200 "OK")
           forwarded,  \* reached the transport
           rejected,   \* HTTP/2 server refused the request before the handler (connection-specific header)
           i           \* index of the next injector
-vars == <<req, pc, outH, outHost, local, forwarded, rejected, i>>
+vars == <<req, pc, outH, outT, outHost, local, forwarded, rejected, i>>
 
 \* ---------------------------------------------------------------- helpers
 Keys(h) == { h[n][1] : n \in 1..Len(h) }
@@ -164,7 +173,8 @@ InLines == [n \in 1..Len(req.lines) |-> <<req.lines[n].k, req.lines[n].v>>]
 UALines == [n \in 1..Len(req.ua) |-> <<"User-Agent", req.ua[n]>>]
 ProbeTextLine == IF req.probeText THEN << <<"X-Note", "kube-probe/1.26">> >> ELSE <<>>
 PreLines == [n \in 1..Len(req.pre) |-> <<req.pre[n].k, req.pre[n].v>>]
-InH == PreLines \o UALines \o ProbeTextLine \o InLines      \* what the handler sees (canonical keys)
+TrailerAnnounce == IF req.trailers = <<>> THEN <<>> ELSE << <<"Trailer", "ANNOUNCED">> >>
+InH == PreLines \o UALines \o ProbeTextLine \o InLines \o TrailerAnnounce     \* what the handler sees (canonical keys)
 
 Injectors == IF req.custom = "absent" THEN DefaultInjectors ELSE DefaultInjectors \o <<CUSK>>
 
@@ -197,7 +207,7 @@ UpgradeType == IF "Upgrade" \in ConnListed /\ Values(InH, "Upgrade") # <<>> THEN
 
 \* ---------------------------------------------------------------- pipeline
 Init == /\ req \in Scenarios
-        /\ pc = "server" /\ outH = <<>> /\ outHost = "" /\ local = FALSE /\ forwarded = FALSE
+        /\ pc = "server" /\ outH = <<>> /\ outT = <<>> /\ outHost = "" /\ local = FALSE /\ forwarded = FALSE
         /\ rejected = FALSE /\ i = 1
 
 \* the HTTP/2 server answers 400 itself when a request carries connection-specific headers (RFC 9113 8.2.2)
@@ -205,14 +215,16 @@ ServerAdmit == /\ pc = "server"
                /\ IF req.proto = "h2" /\ \E n \in 1..Len(InH) : InH[n][1] \in {"Connection", "Keep-Alive", "Upgrade", "Transfer-Encoding", "Proxy-Connection"}
                   THEN rejected' = TRUE /\ pc' = "done"
                   ELSE rejected' = FALSE /\ pc' = "probe"
-               /\ UNCHANGED <<req, outH, outHost, local, forwarded, i>>
+               /\ UNCHANGED <<req, outH, outT, outHost, local, forwarded, i>>
 
 ProbeCheck == /\ pc = "probe"
               /\ IF req.probe /\ IsProbe THEN local' = TRUE /\ pc' = "done"
                                          ELSE local' = FALSE /\ pc' = "clone"
-              /\ UNCHANGED <<req, outH, outHost, forwarded, rejected, i>>
+              /\ UNCHANGED <<req, outH, outT, outHost, forwarded, rejected, i>>
 
-CloneOut == /\ pc = "clone" /\ outH' = InH /\ outHost' = req.host /\ pc' = "hop"
+\* the outbound request is a deep copy made before the body is read: its Trailer map has the announced names and never receives the
+\* values the client sends after the body, so the outbound trailer section stays empty (request trailers are not promised by C08)
+CloneOut == /\ pc = "clone" /\ outH' = InH /\ outHost' = req.host /\ pc' = "hop" /\ outT' = <<>>
             /\ UNCHANGED <<req, local, forwarded, rejected, i>>
 
 \* removeHopByHopHeaders: names listed in Connection, then the fixed set; "Te: trailers" is put back
@@ -223,16 +235,16 @@ DropHopByHop == /\ pc = "hop"
                    IN  \* a protocol upgrade the client asks for is passed on: Connection: Upgrade and the Upgrade field are put back
                        outH' = IF UpgradeType # "" THEN h2 \o << <<"Connection", "Upgrade">>, <<"Upgrade", UpgradeType>> >> ELSE h2
                 /\ pc' = "strip"
-                /\ UNCHANGED <<req, outHost, local, forwarded, rejected, i>>
+                /\ UNCHANGED <<req, outT, outHost, local, forwarded, rejected, i>>
 
 \* ReverseProxy with Rewrite set removes these before calling Rewrite
 StripForwarded == /\ pc = "strip"
                   /\ outH' = Del(Del(Del(Del(outH, FWD), XFF), XFH), XFP)
                   /\ pc' = "seturl"
-                  /\ UNCHANGED <<req, outHost, local, forwarded, rejected, i>>
+                  /\ UNCHANGED <<req, outT, outHost, local, forwarded, rejected, i>>
 
 SetURL == /\ pc = "seturl" /\ outHost' = "BACKEND" /\ pc' = "xfwd"       \* r.SetURL(f.To) also rewrites Host
-          /\ UNCHANGED <<req, outH, local, forwarded, rejected, i>>
+          /\ UNCHANGED <<req, outH, outT, local, forwarded, rejected, i>>
 
 \* r.Out.Header["X-Forwarded-For"] = r.In.Header["X-Forwarded-For"]; r.SetXForwarded()
 SetXForwarded == /\ pc = "xfwd"
@@ -242,12 +254,12 @@ SetXForwarded == /\ pc = "xfwd"
                         h3 == Set(h2, XFP, "https")                         \* every client connection is TLS
                     IN  outH' = h3
                  /\ pc' = "host"
-                 /\ UNCHANGED <<req, outHost, local, forwarded, rejected, i>>
+                 /\ UNCHANGED <<req, outT, outHost, local, forwarded, rejected, i>>
 
 PreserveHost == /\ pc = "host"
                 /\ outHost' = IF req.preserveHost THEN req.host ELSE outHost
                 /\ pc' = "inject"
-                /\ UNCHANGED <<req, outH, local, forwarded, rejected, i>>
+                /\ UNCHANGED <<req, outH, outT, local, forwarded, rejected, i>>
 
 \* one step per configured injector: the name is removed, then set iff the injector produced a value
 Inject == /\ pc = "inject" /\ i <= Len(Injectors)
@@ -256,10 +268,10 @@ Inject == /\ pc = "inject" /\ i <= Len(Injectors)
              IN  outH' = IF Outcome(k) = "value" THEN base \o << <<k, Computed(k)>> >> ELSE base
           /\ i' = i + 1
           /\ pc' = IF i = Len(Injectors) THEN "send" ELSE "inject"
-          /\ UNCHANGED <<req, outHost, local, forwarded, rejected>>
+          /\ UNCHANGED <<req, outT, outHost, local, forwarded, rejected>>
 
 Send == /\ pc = "send" /\ forwarded' = TRUE /\ pc' = "done"
-        /\ UNCHANGED <<req, outH, outHost, local, rejected, i>>
+        /\ UNCHANGED <<req, outH, outT, outHost, local, rejected, i>>
 
 Next == ServerAdmit \/ ProbeCheck \/ CloneOut \/ DropHopByHop \/ StripForwarded \/ SetURL \/ SetXForwarded
         \/ PreserveHost \/ Inject \/ Send
@@ -272,7 +284,8 @@ Fwd  == Done /\ forwarded
 \* C05: per configured name exactly the computed value, or nothing
 NoSpoof == Fwd => \A n \in 1..Len(Injectors) :
               LET k == Injectors[n] IN
-              Values(outH, k) = IF Outcome(k) = "value" THEN <<Computed(k)>> ELSE <<>>
+              /\ Values(outH, k) = IF Outcome(k) = "value" THEN <<Computed(k)>> ELSE <<>>
+              /\ Values(outT, k) = <<>>            \* nor in the trailer section
 \* ... and a name that is not configured is an ordinary end-to-end header (not the proxy's business)
 
 \* C09
